@@ -102,6 +102,10 @@ func (fs *ReadOnlyFS) copyFile(name string, f hackpadfs.File, info hackpadfs.Fil
 		if closeErr := destFile.Close(); retErr == nil {
 			retErr = closeErr
 		}
+		if retErr != nil {
+			// do not leave a partial copy behind: every later Open would serve it
+			_ = hackpadfs.Remove(fs.cacheFS, name)
+		}
 	}()
 
 	destFileWriter, ok := destFile.(io.Writer)
